@@ -131,12 +131,12 @@ def judge_one(drv, enc, ctx):
     if spec[0] == "Instance" and len(spec) > 3 and spec[3] == "default" and r is not None and r[0] == L.REJ:
         r = (L.UNSPEC,)          # adapt='default': a non-adaptable value stores the default instead
     v = C3.subst(v0, drv.obj)
-    before = drv.snapshot()
     try:
-        xb = drv.obj.x
+        xb = drv.obj.x            # (reading first: the read itself may store the default)
         readable_before = True
     except Exception:
         xb, readable_before = None, False
+    before = drv.snapshot()
     old_obj = drv.obj
     try:
         drv.assign(v)
@@ -149,6 +149,9 @@ def judge_one(drv, enc, ctx):
         out = ("EXC", e)
     sid = L.spec_id(spec)
     where = "spec=%s route=%s value=%r" % (sid, drv.route, v)
+    ctx.label({"ok": "accepted", "TE": "rejected-TraitError", "EXC": "passthrough-exception"}[out[0]])
+    if r is not None and r[0] == L.UNSPEC:
+        ctx.label("reference-unspecified")
 
     if out[0] == "ok":
         x = drv.obj.x
@@ -200,14 +203,14 @@ def judge_one(drv, enc, ctx):
         return None
     # some other exception
     e = out[1]
-    allowed = protocol_exceptions(v0) | {OverflowError}
+    allowed = protocol_exceptions(v0)
+    if L.may_overflow(v0):
+        allowed.add(OverflowError)
     if rexc is not None:
         allowed.add(type(rexc))
     if type(e) not in allowed:
         return ("rejection/foreign-exception", "%s: raised %r (only TraitError or the value's own conversion exception may surface)"
                 % (where, e))
-    if type(e) is OverflowError and rexc is None and not protocol_exceptions(v0):
-        return ("rejection/foreign-exception", "%s: raised %r but no numeric conversion of this value overflows" % (where, e))
     return None
 
 
